@@ -385,3 +385,22 @@ func TestDefectC15SharedTypeMap(t *testing.T) {
 	}
 	wg.Wait()
 }
+
+// C19: after Terminate nothing else is served, even if more messages were pipelined in the
+// same segment (they sit in the buffered reader), and the hook runs once.
+func TestDefectC19TerminateStops(t *testing.T) {
+	hooks, parsed := 0, 0
+	parse := func(ctx context.Context, q string) (PreparedStatements, error) {
+		parsed++
+		return Prepared(NewStatement(func(ctx context.Context, w DataWriter, p []Parameter) error { return w.Complete("OK") })), nil
+	}
+	srv := newSrv(t, parse, TerminateConn(func(ctx context.Context) error { hooks++; return nil }))
+	in := append(startup(), msg('X')...)
+	in = append(in, msg('X')...)
+	in = append(in, msg('Q', cstr("select 1"))...)
+	_, types := run(t, srv, in, 500*time.Millisecond)
+	t.Logf("transcript %q hooks=%d parsed=%d", types, hooks, parsed)
+	if hooks != 1 || parsed != 0 {
+		t.Fatalf("after Terminate: hook ran %d times, parser ran %d times", hooks, parsed)
+	}
+}
